@@ -161,7 +161,8 @@ class RTCBase(NLRI):
         assert len(self._packed) in (self.PACKED_LENGTH_WILDCARD, self.PACKED_LENGTH_FULL), (
             'an RTC NLRI is either a wildcard or a full route target'
         )
-        return self._packed
+        # a prefix shorter than 96 bits is held zero padded: only the octets it covers go on the wire
+        return self._packed[: 1 + (self._packed[0] + 7) // 8]
 
     def index(self) -> bytes:
         """Return unique index for this RTC NLRI."""
@@ -192,23 +193,28 @@ class RTCBase(NLRI):
                 'incorrect RTC length: %d (should be >=%d,<=%d)' % (length, RTC_PREFIX_MIN_BITS, RTC_PREFIX_MAX_BITS),
             )
 
-        if len(data) < cls.PACKED_LENGTH_FULL:
+        # RFC 4684 section 4: the prefix is `length` bits long, so ceil(length / 8) octets follow, not always
+        # twelve.  Taking thirteen octets whatever the length refused a shorter prefix standing last in its
+        # field as truncated, and read it into the next NLRI when it was not last.
+        size = 1 + (length + 7) // 8
+        if len(data) < size:
             raise Notify(
                 3,
                 10,
-                'RTC NLRI truncated: need %d bytes, got %d' % (cls.PACKED_LENGTH_FULL, len(data)),
+                'RTC NLRI truncated: need %d bytes, got %d' % (size, len(data)),
             )
 
-        # Store complete wire format with flags reset on RT
-        # Wire format: [length(1)][origin(4)][rt(8)]
+        # Store the length, then origin(4) and rt(8) with the bits beyond the prefix zero, flags reset on RT
+        value = bytes(data[1:size]) + bytes(cls.PACKED_LENGTH_FULL - size)
         packed = (
-            bytes(data[0:5])  # length + origin
-            + bytes([RTC.resetFlags(data[5])])  # RT first byte with flags reset
-            + bytes(data[6:13])  # RT remaining bytes
+            bytes([length])
+            + value[0:4]  # origin
+            + bytes([RTC.resetFlags(value[4])])  # RT first byte with flags reset
+            + value[5:12]  # RT remaining bytes
         )
 
         nlri = cls(packed)
-        return nlri, data[13:]
+        return nlri, data[size:]
 
 
 @NLRI.register(AFI.ipv4, SAFI.rtc)
